@@ -329,6 +329,7 @@ def modelOp (op : String) (pat : String) (args : List String) : Option String :=
   | "u.swap", [b] => pure (showBytes (Model.Codec.swapEndianness (← parseBytes? b)))
   | "u.infield", [v] => pure (showBool (Model.Mimc7.inField (← parseInt? v)))
   | "u.arrinfield", [l] => pure (showBool ((← parseIntList? l).all Model.Mimc7.inField))
+  | "u.elemarr", [l] => pure (showList toString ((← parseIntList? l).map (fun v => imod v q)))
   | _, _ =>
     if op.startsWith "ff." then fieldOp ffCfg (op.drop 3).toString args
     else if op.startsWith "ffg." then fieldOp ffgCfg (op.drop 4).toString args
